@@ -51,7 +51,7 @@ type c04Case struct {
 
 const c04Rule = "case = protocol (ipfix | nf9) + 2..6 (exporter address, template id) slots (IPv4 4-byte, IPv4-mapped, IPv6; ids shared across exporters; adversarial pairs that collide on the cache's " +
 	"full 32-bit FNV-1 hash or share a shard, found by searching ~1.5M keys) + 2..30 operations: announce (alone or with data in the same message), re-announce with a different definition " +
-	"(same record length with other elements, or a fresh template), data under the model's current template, data for a never-announced slot, peer Get (ipfix), and messages mixing data sets and (re-)announcements of several ids of one exporter in any order; " +
+	"(same record length with other elements, same elements with other field lengths, or a fresh template), data under the model's current template, data for a never-announced slot, peer Get (ipfix), and messages mixing data sets and (re-)announcements of several ids of one exporter in any order; " +
 	"invariant after every step = decode equals the reference expectation under the model's template for exactly that slot, unannounced slots give an 'unknown template' error and no records, peer Get returns the model's template or 'not available'; " +
 	"non-trivial = a re-announcement followed by data, or >= 2 exporters using one id with different definitions, or a colliding pair in use; distinct by hash"
 
@@ -204,8 +204,10 @@ func genC04(t *rapid.T, proto string, env *wire.GenEnv) c04Case {
 				j := same[rapid.IntRange(0, len(same)-1).Draw(t, "mixedslot")]
 				if local[j] == nil || rapid.IntRange(0, 2).Draw(t, "mixedannounce") == 0 {
 					var tp wire.Template
-					if local[j] != nil && rapid.Bool().Draw(t, "mixedsamelen") {
+					if local[j] != nil && rapid.IntRange(0, 2).Draw(t, "mixedredef") == 0 {
 						tp = redefineSameLength(t, env, local[j])
+					} else if local[j] != nil && proto == "ipfix" && rapid.Bool().Draw(t, "mixedotherlen") {
+						tp = redefineOtherLengths(t, local[j])
 					} else {
 						tp = env.GenTemplate(t, c.Slots[j].ID)
 					}
@@ -226,9 +228,24 @@ func genC04(t *rapid.T, proto string, env *wire.GenEnv) c04Case {
 			c.Ops = append(c.Ops, c04Op{Op: "peerget", Slot: slot})
 		case cur == nil || kind <= 3:
 			var tp wire.Template
-			if cur != nil && rapid.Bool().Draw(t, "samelen") {
+			switch {
+			case cur != nil && rapid.IntRange(0, 2).Draw(t, "redefkind") == 0:
 				tp = redefineSameLength(t, env, cur)
-			} else {
+			case cur != nil && rapid.IntRange(0, 1).Draw(t, "redefkind2") == 0:
+				tp = redefineOtherLengths(t, cur)
+				if proto == "nf9" {
+					for i := range tp.Fields {
+						if tp.Fields[i].Len == wire.VarLen {
+							tp.Fields[i].Len = 3
+						}
+					}
+					for i := range tp.Scope {
+						if tp.Scope[i].Len == wire.VarLen {
+							tp.Scope[i].Len = 3
+						}
+					}
+				}
+			default:
 				tp = env.GenTemplate(t, c.Slots[slot].ID)
 			}
 			op := c04Op{Op: "announce", Slot: slot, Tpl: &tp}
@@ -245,6 +262,48 @@ func genC04(t *rapid.T, proto string, env *wire.GenEnv) c04Case {
 		}
 	}
 	return c
+}
+
+// redefineOtherLengths keeps the elements (ids, enterprise numbers, order) and changes only field lengths:
+// a cache that compares announcements by element only would take it for a refresh.
+func redefineOtherLengths(t *rapid.T, cur *wire.Template) wire.Template {
+	tp := wire.Template{ID: cur.ID, Options: cur.Options}
+	chg := func(fs []wire.Field) []wire.Field {
+		var out []wire.Field
+		for _, f := range fs {
+			nf := f
+			nat := wire.NaturalSize(f.Type)
+			switch {
+			case f.Len == wire.VarLen:
+				nf.Len = uint16(rapid.IntRange(1, 12).Draw(t, "fixlen"))
+			case nat == 0:
+				nf.Len = uint16(rapid.IntRange(0, 24).Draw(t, "otherlen"))
+				if wire.IsVarType(f.Type) && rapid.IntRange(0, 3).Draw(t, "tovar") == 0 {
+					nf.Len = wire.VarLen
+				}
+			case int(f.Len) == nat:
+				nf.Len = uint16(rapid.IntRange(0, nat-1).Draw(t, "reducedlen"))
+			default:
+				nf.Len = uint16(nat)
+			}
+			out = append(out, nf)
+		}
+		return out
+	}
+	tp.Scope = chg(cur.Scope)
+	tp.Fields = chg(cur.Fields)
+	if tp.MinRecordLen() == 0 {
+		fs := tp.Fields
+		if len(tp.Scope) > 0 {
+			fs = tp.Scope
+		}
+		n := wire.NaturalSize(fs[0].Type)
+		if n == 0 {
+			n = 1
+		}
+		fs[0].Len = uint16(n)
+	}
+	return tp
 }
 
 // redefineSameLength returns a template with the same field lengths but other elements
